@@ -133,6 +133,7 @@ class Blake2(Blake):
         if salt == b'': salt = b'\0'*l
         if pers == b'': pers = b'\0'*l
         self.keylen=keylen
+        self.held = None
         assert 0<self.outlen<=self.wsize
         assert self.keylen<=self.wsize
         self.treeinit(**kargs)
@@ -157,23 +158,25 @@ class Blake2(Blake):
         self.inner = inner
 
     def iterblocks(self,M,padding=False):
-        g = self.padmethod.iterblocks(M,padding=padding)
-        try:
-            blk = next(g)
-        except StopIteration:
-            blk = None
-        while (blk):
-            # byte counter of blk (the look-ahead below moves padmethod.bitcnt)
-            self.t = self.padmethod.bitcnt//8
-            try: #forsee last block:
-                nextblk = next(g)
-            except StopIteration:
-                # set f0 finalization flag (blk is last)
-                if padding: self.f[0]= -1
-                nextblk = None
+        # BLAKE2 sets the finalization flag on the last *data* block, and which block
+        # that is only shows when the padded (final) piece arrives: the last block of a
+        # continuation piece is therefore held back until the next call.
+        blocks = []
+        if self.held is not None:
+            blocks.append(self.held)
+            self.held = None
+        if not (padding and len(M)==0 and blocks):
+            for blk in self.padmethod.iterblocks(M,padding=padding):
+                # byte counter up to and including blk
+                blocks.append((blk,self.padmethod.bitcnt//8))
+        if not padding and blocks:
+            self.held = blocks.pop()
+        for i,(blk,t) in enumerate(blocks):
+            self.t = t
+            # set f0 finalization flag (blk is last)
+            if padding and i==len(blocks)-1: self.f[0]= -1
             # input words are now in little-endian:
             yield Bits(blk,bitorder=1).split(self.wsize)
-            blk = nextblk
 
     def __call__(self,M,**kargs):
         self.initstate(**kargs)
